@@ -1,17 +1,21 @@
 # C12 — CPU-time / off-CPU accounting.  Model: coq/Model/ContextSwitch.v; spec: coq/Spec/ContextSwitchSpec.v;
 # tie: harness/h_incl (samply/src/shared/context_switch.rs compiled in by #[path]).
-import os, sys
+import json, os, shutil, subprocess, sys
+from concurrent.futures import ThreadPoolExecutor
 from . import common as K
+from . import perfdata as P
 
 PROP = "C12"
 RULE = ("cases = (interval I, event history over switch-in / switch-out / on-CPU sample / consume_cpu_delta with absolute timestamps); "
         "streams: sampled bounded-exhaustive (length <= 7, time steps {0,1,2,5}, I in {1,2,3,10}), random histories up to 400 events with large times "
         "and intervals, a separate tagged outside-hypothesis stream (decreasing timestamps, I = 0) that is only recorded. "
         "Observed per event: returned OffCpuSampleGroup / delta, final accumulators (from the Debug rendering), panics (debug build). "
-        "non-trivial = the model emitted at least one off-CPU group AND the history hit an unexpected branch (switch-out while off, or switch-in while on)")
+        "a further stream goes end to end through `samply import`: recordings with PERF_RECORD_SWITCH records (in / out / out with the preempted flag) and samples of one thread, observed: the CPU delta serialized with each sample. "
+        "non-trivial = the model emitted at least one off-CPU group AND the history hit an unexpected branch (switch-out while off, or switch-in while on); end to end: a switch-out precedes a sample")
 TRUSTED = ["the Debug rendering of ThreadContextSwitchData is used to read the two private accumulators (harness/h_incl/src/cs.rs)"]
 ASSUMPTIONS = ["timestamps nondecreasing and I > 0 (as the property states); the converter's construction of the handler with interval 0 for crafted attrs is outside the property",
-               "per_cpu.rs reuses the same handler; not exercised separately here"]
+               "per_cpu.rs reuses the same handler; not exercised separately here",
+               "the end-to-end stream observes CPU deltas only: off-CPU samples are emitted by the converter only when a sched:sched_switch event supplies their stack, which the generated recordings do not have"]
 
 
 def prove():
@@ -58,6 +62,17 @@ def gen(tier, rng, scale):
         n = rng.range(2, 10)
         items = [[rng.choice(["i", "o", "s"]), rng.below(50)] for _ in range(n)]
         cases.append({"I": rng.choice([0, 1, 10]), "items": items, "tag": "outside"})
+    # end to end through the converter: a recording with context-switch records (attr.context_switch) of one thread - switch-in, switch-out (plain, or
+    # with the kernel's "was preempted" flag: the thread left the CPU all the same) and main-event samples, strictly increasing times in whole
+    # microseconds; what is observed is the CPU delta serialized with each sample
+    erng = rng.fork("e2e")
+    for _ in range((60 if quick else 1200) * scale):
+        t = E2E_ORIGIN + 1000 * erng.range(1, 50)
+        items = []
+        for _ in range(erng.range(3, 40)):
+            t += 1000 * erng.choice([1, 2, 5, 10, 700, 1000, 3000, 250000])
+            items.append([erng.choice(["i", "i", "o", "p", "s", "s", "s"]), t])
+        cases.append({"I": 1000000, "items": items, "kind": "e2e"})
     return cases
 
 
@@ -86,9 +101,96 @@ def _coq_out(tok):
     raise ValueError(tok)
 
 
+E2E_ORIGIN = 10 ** 9
+_plock = __import__("threading").Lock()
+
+
+def _e2e_one(samply, case, d):
+    """-> the CPU deltas (ns) of the samples of thread 100 in time order, or None when the import failed"""
+    with _plock:          # the writer's layout is module state
+        P.set_layout(True, True)
+        recs = [P.comm(100, 100, "cs", E2E_ORIGIN + 1, True)]
+        last = E2E_ORIGIN
+        for k, t in case["items"]:
+            last = t
+            if k == "s":
+                recs.append(P.sample(100, 100, t, 0x401160, None))
+            else:
+                recs.append(P.switch(100, 100, t, 0, k != "i", preempt=(k == "p")))
+        recs.append(P.finished_round())
+        data = P.build(recs, first_time=E2E_ORIGIN, last_time=last, context_switch=True)
+    pd = os.path.join(d, "rec.perf.data")
+    open(pd, "wb").write(data)
+    outp = os.path.join(d, "out.json")
+    r = subprocess.run([samply, "import", pd, "--save-only", "-o", outp], capture_output=True, text=True, timeout=300)
+    if r.returncode != 0 or not os.path.exists(outp):
+        return None
+    prof = json.load(open(outp))
+    th = [x for x in prof["threads"] if str(x["tid"]).split(".")[0] == "100"]
+    if len(th) != 1:
+        return None
+    sm = th[0]["samples"]
+    deltas = sm.get("threadCPUDelta") or [0] * sm["length"]
+    unit = (prof["meta"].get("sampleUnits") or {}).get("threadCPUDelta", "µs")
+    mul = {"ns": 1, "µs": 1000, "us": 1000}.get(unit)
+    if mul is None or len(deltas) != sum(1 for k, _ in case["items"] if k == "s"):
+        return None
+    return [int(round((x or 0) * mul)) for x in deltas]
+
+
+def _evaluate_e2e(cases):
+    ok, log, samply = K.cargo_build_samply()
+    if not ok:
+        raise K.TieBroken("samply does not build:\n" + log[-1500:])
+    base = os.path.join(K.SCRATCH, "c12e_%d" % os.getpid())
+    shutil.rmtree(base, ignore_errors=True)
+    os.makedirs(base)
+
+    def one(i):
+        d = os.path.join(base, "h%d" % i)
+        os.makedirs(d)
+        try:
+            return _e2e_one(samply, cases[i], d)
+        finally:
+            shutil.rmtree(d, ignore_errors=True)
+    try:
+        with ThreadPoolExecutor(max_workers=K.NCPU) as ex:
+            results = list(ex.map(one, range(len(cases))))
+    finally:
+        shutil.rmtree(base, ignore_errors=True)
+    terms = []
+    for c, obs in zip(cases, results):
+        evs = []
+        items = c["items"]
+        lastsample = max([j for j, it in enumerate(items) if it[0] == "s"] + [-1])
+        for it in items[:lastsample + 1]:
+            evs.append({"i": "SwIn %d", "o": "SwOut %d", "p": "SwOut %d", "s": "Sample %d"}[it[0]] % it[1])
+            if it[0] == "s":
+                evs.append("Consume")
+        c["_obs"] = obs
+        terms.append("(%d, %s, %s, %s)" % (c["I"], K.coq_list(evs), K.coq_list([str(x) for x in (obs or [])]), "true" if obs is None else "false"))
+    shards = ["Definition cases : list (N * list ev * list N * bool) := %s.\nEval vm_compute in (map verdict_e2e cases).\n" % K.coq_list(ch) for ch in K.chunked(terms, K.NCPU)]
+    try:
+        res = K.coq_eval(PROP, "From SV Require Import Model.ContextSwitch Spec.ContextSwitchSpec Tie.C12.\nOpen Scope N_scope.", shards)
+    except RuntimeError as ex:
+        raise K.TieBroken(str(ex))
+    return [v for r in res for v in r]
+
+
 def evaluate(cases):
     if not cases:
         return []
+    e2e = [i for i, c in enumerate(cases) if c.get("kind") == "e2e"]
+    if e2e:
+        ev = _evaluate_e2e([cases[i] for i in e2e])
+        rest = [i for i in range(len(cases)) if cases[i].get("kind") != "e2e"]
+        rv = evaluate([cases[i] for i in rest])
+        out = [None] * len(cases)
+        for i, v in zip(e2e, ev):
+            out[i] = v
+        for i, v in zip(rest, rv):
+            out[i] = v
+        return out
     ok, log, bindir = K.cargo_build("h_incl")
     if not ok:
         raise K.TieBroken("harness h_incl does not build against the current tree:\n" + log[-1500:])
@@ -127,6 +229,9 @@ def known(case):
 
 
 def describe(case):
+    if case.get("kind") == "e2e":
+        return {"recording": "one thread; i = switch-in, o = switch-out, p = switch-out with the preempted flag, s = main-event sample; times in ns",
+                "events": _line(case)[:600], "cpu deltas of the samples as serialized (ns)": case.get("_obs")}
     return {"I": case["I"], "events": _line(case)[:300]}
 
 
